@@ -24,14 +24,20 @@ DO_EVENTS = [
     [("MV", "a.py", "c.py")], [("MV", "c.py", "a.py")], [("MV", "d", "g")], [("MV", "a.py", "e/a.py")], [("MV", "b.py", "a.py")],
     [("RM", "b.py")], [("RM", "d")],
     [("CD", "", "e"), ("MV", "a.py", "e/a.py")], [("W", "a.py"), ("W", "b.py")],
+    # a content change that switches the file from LF to CRLF line ends (the text itself contains \r\n)
+    [("WCR", "a.py")],
 ]
-DO_SMALL = [DO_EVENTS[i] for i in (0, 1, 2, 6, 8, 9, 11, 12, 16)]
+DO_SMALL = [DO_EVENTS[i] for i in (0, 1, 2, 6, 8, 9, 11, 12, 16, 18)]
+
+
+def convention(data):
+    return b"\r\n" if b"\r\n" in data else b"\r" if b"\r" in data else b"\n"
 
 
 def touched(ops):
     out = set()
     for o in ops:
-        if o[0] in ("W", "RM"):
+        if o[0] in ("W", "WCR", "RM"):
             out.add(o[1])
         elif o[0] in ("CF", "CD"):
             out.add((o[1] + "/" if o[1] else "") + o[2])
@@ -51,21 +57,28 @@ class Entry:
         self.ops = ops
         self.step = step
         self.touched = touched(ops)
-        self.writes = {}      # path -> (old, new) contents
+        self.writes = {}      # path -> old contents
+        self.written = {}     # path -> bytes written when first done
         self.has_rm = any(o[0] == "RM" for o in ops)
 
-    def content(self, path):
+    def content(self, path, crlf=False):
+        if crlf:
+            return ("%s#%d\r\nz = 0\r\n" % (path, self.step)).encode()
         return ("%s#%d\n" % (path, self.step)).encode()
 
     def apply(self, m, first):
         """Apply forward on TreeModel m; returns False if infeasible."""
         for o in self.ops:
-            if o[0] == "W":
+            if o[0] in ("W", "WCR"):
                 if not m.is_file(o[1]):
                     return False
+                if o[0] == "WCR" and first is not None and convention(m.t[o[1]]) != b"\n" and o[1] not in self.written:
+                    return False    # text with \r\n is only given to a file that has LF line ends
                 if first:
                     self.writes[o[1]] = m.t[o[1]]
-                m.write(o[1], self.content(o[1]))
+                    # new text is stored with the line-end convention the file has when the change is first done
+                    self.written[o[1]] = self.content(o[1], o[0] == "WCR") if o[0] == "WCR" else self.content(o[1]).replace(b"\n", convention(m.t[o[1]]))
+                m.write(o[1], self.written.get(o[1], self.content(o[1], o[0] == "WCR")))
             elif not apply_model(m, o):
                 return False
         return True
@@ -73,7 +86,7 @@ class Entry:
     def revert(self, m):
         for o in reversed(self.ops):
             k = o[0]
-            if k == "W":
+            if k in ("W", "WCR"):
                 m.write(o[1], self.writes[o[1]])
             elif k in ("CF", "CD"):
                 m.remove((o[1] + "/" if o[1] else "") + o[2])
@@ -124,8 +137,8 @@ def build_changeset(project, label, entry, model_tree):
     m = model_tree.copy()
     for o in entry.ops:
         k = o[0]
-        if k == "W":
-            cs.add_change(change.ChangeContents(project.get_file(o[1]), entry.content(o[1]).decode()))
+        if k in ("W", "WCR"):
+            cs.add_change(change.ChangeContents(project.get_file(o[1]), entry.content(o[1], k == "WCR").decode()))
         elif k == "CF":
             cs.add_change(change.CreateFile(project.get_folder(o[1]) if o[1] else project.root, o[2]))
         elif k == "CD":
@@ -136,7 +149,7 @@ def build_changeset(project, label, entry, model_tree):
         elif k == "RM":
             res = project.get_folder(o[1]) if m.is_dir(o[1]) else project.get_file(o[1])
             cs.add_change(change.RemoveResource(res))
-        if k != "W":
+        if k not in ("W", "WCR"):
             apply_model(m, o)
     return cs
 
